@@ -1,2 +1,79 @@
-"""Property-specific harnesses that are not plain register-to-register wrappers (memory, allocator, prefetch, macros)."""
-HANDLERS = {}
+"""Property-specific harnesses that are not plain register-to-register wrappers (denominators, allocator, prefetch, macros)."""
+import os
+import re
+import time
+
+from . import build, configs, llir, known, sysconsts, ops
+
+
+def denominators(prop, tier, seed, a):
+    from . import check, denom, runner
+    t0 = time.time()
+    budget = dict(check.BUDGET[tier])
+    budget['group_ms'] = 1000
+    ladder = configs.check_ladder(build.REPO)
+    cfgs = configs.for_tier(tier)
+    if a.configs:
+        cfgs = [configs.BY_NAME[c] for c in a.configs.split(',')]
+    kf = known.load()
+    tasks, compile_info, dropped_all = [], [], []
+    dedup = {}
+    n_dedup = 0
+    for cfg in cfgs:
+        ws = denom.wrappers_for(cfg, prop, tier)
+        if a.ops:
+            ws = [w for w in ws if re.search(a.ops, w['op'])]
+        if a.types:
+            ws = [w for w in ws if re.search(a.types, w['type'])]
+        if not ws:
+            continue
+        tc = time.time()
+        text, ok, dropped, cmd, llpath = build.compile_ir(cfg, ws, prop)
+        mod = llir.parse_module(text)
+        compile_info.append({'config': cfg.name, 'flags': cfg.flags(), 'wrappers': len(ok), 'dropped': len(dropped), 'compile_s': round(time.time() - tc, 2)})
+        for w, err in dropped:
+            dropped_all.append({'config': cfg.name, 'wrapper': w['name'], 'error': err[:200]})
+        for w in ok:
+            h = check.fn_hash(mod, w['name'])
+            key = (h, w['op'], w['type'])
+            if key in dedup:
+                n_dedup += 1
+                dedup[key]['also'].append(cfg.name)
+                continue
+            groups = denom.groups_for(w, tier, seed)
+            t = {'ll': llpath, 'meta': w, 'cfg': cfg.name, 'prop': prop, 'budget': budget, 'known': kf, 'ir_hash': h, 'also': [],
+                 'handler': 'avelverif.denom.solve_task', 'groups': groups, 'tier': tier, 'soft_s': 150 if tier == 'quick' else 2400}
+            dedup[key] = t
+            tasks.append(t)
+    print('[%s %s] %d configurations, %d wrappers x divisor lattices to decide (%d identical-IR duplicates folded), %d dropped at compile time'
+          % (prop, tier, len(compile_info), len(tasks), n_dedup, len(dropped_all)), flush=True)
+
+    def progress(done, total, r):
+        if a.verbose or r.get('status') not in ('ok', 'known'):
+            print('  [%d/%d] %-40s %-8s %-13s %.1fs %s' % (done, total, r.get('name'), r.get('cfg'), r.get('status'), r.get('time', 0),
+                                                           (r.get('detail') or '')[:120].replace('\n', ' ')), flush=True)
+    results = runner.run_pool(tasks, nproc=a.jobs, hard_s=budget['hard_s'] if tier == 'quick' else 3000, progress=progress)
+    extra = {'bounds': 'numerator: every value of the type; divisor: every value for 8-bit types (symbolic), enumerated lattice otherwise '
+                       '(powers of two and neighbours, +-1, extremes, 0xAA../0x55.. patterns%s); divisors outside the lattice are outside the claim for 16/32/64-bit types'
+                       % (', every 16-bit divisor for the scalar types, seeded random values' if tier == 'thorough' else ''),
+             'divisor_groups': sum(len(t['groups']) for t in tasks),
+             'divisor_groups_done': sum((r or {}).get('groups_done', 0) for r in results)}
+    return check.finish(prop, tier, seed, a, t0, tasks, results, compile_info, dropped_all, n_dedup, ladder, kf, extra)
+
+
+def scalar_equiv(prop, tier, seed, a):
+    """C16: every scalar overload against the same oracle the vector lanes are checked against (C04/C06/C07/C10-C13), under
+    every scalar instruction-set selection; thorough also re-runs the vector side under this property."""
+    from . import check
+    t0 = time.time()
+    names = ['none', 'x86', 'popcnt', 'lzcnt', 'bmi', 'bmi2', 'sse2', 'sse42', 'avx2', 'avx512']
+    cfgs = [configs.BY_NAME[n] for n in names]
+    if tier == 'thorough':
+        cfgs = configs.ALL
+    extra = {'note': 'scalar overloads and vector lanes are decided against one and the same oracle per operation; equality of the two '
+                     'follows by transitivity wherever both sides are discharged (vector side: evidence of C04, C06, C07, C11, C12, C13)'}
+    return check.run_wrapper_property(prop, tier, seed, a, t0, extra_evidence=extra, cfgs=cfgs,
+                                      gen_kwargs={'scalars_only': tier != 'thorough'})
+
+
+HANDLERS = {'C14': denominators, 'C15': denominators, 'C16': scalar_equiv}
